@@ -332,7 +332,8 @@ class CMapParser(PSStackParser[PSKeyword]):
             try:
                 ((_, k), (_, v)) = self.pop(2)
                 self.cmap.set_attr(literal_name(k), v)
-            except PSSyntaxError:
+            except (PSSyntaxError, ValueError):
+                # ValueError: fewer than two operands on the stack
                 pass
             return
 
@@ -340,7 +341,8 @@ class CMapParser(PSStackParser[PSKeyword]):
             try:
                 ((_, cmapname),) = self.pop(1)
                 self.cmap.use_cmap(CMapDB.get_cmap(literal_name(cmapname)))
-            except PSSyntaxError:
+            except (PSSyntaxError, ValueError):
+                # ValueError: no operand on the stack
                 pass
             except CMapDB.CMapNotFound:
                 pass
